@@ -124,10 +124,11 @@ class Module:
 
         from .normalize import desugar_walrus
 
-        from .normalize import canonical_imports, deannotate
+        from .normalize import augment, canonical_imports, deannotate
 
         deannotate(self.tree)
         canonical_imports(self.tree)
+        augment(self.tree)
         self.normalised = desugar_walrus(self.tree) + normalize(self.tree)
         self.lines = self.source.splitlines()
         self.functions: dict[str, FuncInfo] = {}
